@@ -285,7 +285,7 @@ func runC05(w *core.W) {
 	}
 	w.ExhaustivePart(fmt.Sprintf("all %d x %d ordered pairs of the value grid under 8 operators", len(grid), len(grid)))
 	// random pairs beyond the grid: close neighbours and different spellings of one value
-	for i, n := 0, w.Pick(4000, 60000); i < n; i++ {
+	for i, n := 0, w.Pick(20000, 240000); i < n; i++ {
 		d := digits(r, 1+r.Intn(34))
 		e := r.Intn(41) - 20
 		a := &AExpr{Lit: spell(r, r.Intn(2) == 0, d, e)}
@@ -314,7 +314,7 @@ func runC05(w *core.W) {
 			w.Sample("random", c.A.Src+"  vs  "+c.B.Src)
 		}
 	}
-	for i, n := 0, w.Pick(1500, 20000); i < n; i++ {
+	for i, n := 0, w.Pick(7500, 80000); i < n; i++ {
 		mk := func() string {
 			var sb strings.Builder
 			for k := r.Intn(4); k >= 0; k-- {
